@@ -177,8 +177,13 @@ def differing_parts(a, b):
 
 # ----------------------------------------------------------------------------- trace -> Coq
 
-def coq_trace(events, cmap, vmap):
-    return "[" + "; ".join(("Rv " if k == "R" else "Wv ") + f"{cmap[c]} {vmap[v]}" for k, c, v in events) + "]"
+def coq_trace(events, cmap, vmap, chunk=4000):
+    """Coq term (list rev_); long traces are written as an append of chunks (coqc overflows its stack on one huge literal)"""
+    items = [("Rv " if k == "R" else "Wv ") + f"{cmap[c]} {vmap[v]}" for k, c, v in events]
+    if not items:
+        return "[]"
+    parts = ["[" + "; ".join(items[i:i + chunk]) + "]" for i in range(0, len(items), chunk)]
+    return "(" + "\n ++ ".join(parts) + ")" if len(parts) > 1 else parts[0]
 
 
 class Canon:
